@@ -118,6 +118,8 @@ def extract_block(repo, blk, cache, dropped):
     log = []
     h = X.sha(_norm_ws(text))
     text2 = X.apply_rules(text, blk.rules, log, where=blk.name)
+    if blk.loops or blk.nloops is not None:
+        text2, _ = X.insert_loop_contracts(text2, blk.loops, blk.nloops, where=blk.name)
     prov = {'block': blk.name, 'file': blk.file, 'lines': [l0, l1], 'sha256_original': h,
             'rules_fired': [[str(p), n] for p, n in log]}
     return '/* extracted from %s:%d-%d */\n%s\n' % (blk.file, l0, l1, text2), prov
